@@ -151,6 +151,11 @@ type Books struct {
 	nReq int
 	// trace of the last wallet API call(s), captured before any harness read
 	lastTrace []string
+	// crash control: calls (storage and client) of the current operation are numbered from 0; the wallet is
+	// killed BEFORE call killAt, or AFTER the mint served client call killAfter (response never seen)
+	callNo    int
+	killAt    int
+	killAfter int
 }
 
 func NewBooks(c *Ctx) *Books {
@@ -158,6 +163,7 @@ func NewBooks(c *Ctx) *Books {
 		yCache: map[string]string{}, pendGhost: map[int]map[string]string{}, faulted: map[int]bool{},
 		snaps: map[int]*wSnap{}, dirty: map[int]bool{}, taint: map[string]bool{}, meltPaid: map[string]int64{}}
 	b.bySecret = map[string]outRef{}
+	b.killAt, b.killAfter = -1, -1
 	b.net.Install()
 	b.net.After = b.afterHook
 	b.net.Hook = b.hook
@@ -220,6 +226,17 @@ func clientLabel(method, path string) string {
 	return "client?" + method + path
 }
 
+// onCall numbers a call of the wallet and kills the wallet before it when armed.
+func (b *Books) onCall(label string) {
+	n := b.callNo
+	b.callNo++
+	if b.killAt >= 0 && n == b.killAt {
+		b.killAt = -1
+		panic(walletKilled{at: fmt.Sprintf("before %s #%d", label, n)})
+	}
+	b.trace = append(b.trace, label)
+}
+
 // hook records the client call (before the mint serves it) and lets the crash stream cut the wallet off.
 func (b *Books) hook(r *WireReq) error {
 	n := b.nReq
@@ -229,13 +246,22 @@ func (b *Books) hook(r *WireReq) error {
 			return err
 		}
 	}
-	b.trace = append(b.trace, clientLabel(r.Method, r.Path))
+	b.onCall(clientLabel(r.Method, r.Path))
 	return nil
 }
 
 // afterHook bridges Lightning between mints: when a melt is answered PAID the invoice it paid is settled at
 // whichever scripted backend created it (a mint-to-mint swap pays the other mint's invoice).
 func (b *Books) afterHook(r *WireReq) error {
+	b.bridge(r)
+	if b.killAfter >= 0 && b.callNo-1 == b.killAfter {
+		b.killAfter = -1
+		panic(walletKilled{at: fmt.Sprintf("after %s #%d", clientLabel(r.Method, r.Path), b.callNo-1)})
+	}
+	return nil
+}
+
+func (b *Books) bridge(r *WireReq) error {
 	if r.Status != 200 || !strings.HasPrefix(r.Path, "/v1/melt/") {
 		return nil
 	}
@@ -290,7 +316,7 @@ func (b *Books) NewWallet(name string, seed, home int) (*bWallet, error) {
 	bw := &bWallet{idx: len(b.wallets), name: name, dir: dir, seed: seed, home: home, W: w}
 	b.wallets = append(b.wallets, bw)
 	b.pendGhost[bw.idx] = map[string]string{}
-	bw.Wrap(-1).sink = &b.trace
+	bw.Wrap(b.onCall)
 	return bw, nil
 }
 
@@ -303,7 +329,7 @@ func (b *Books) AdoptDir(name, dir string, seed, home int) (*bWallet, error) {
 	bw := &bWallet{idx: len(b.wallets), name: name, dir: dir, seed: seed, home: home, W: w}
 	b.wallets = append(b.wallets, bw)
 	b.pendGhost[bw.idx] = map[string]string{}
-	bw.Wrap(-1).sink = &b.trace
+	bw.Wrap(b.onCall)
 	return bw, nil
 }
 
@@ -318,7 +344,7 @@ func (b *Books) Reopen(w *bWallet) error {
 	}
 	w.W = nw
 	w.proxy = nil
-	w.Wrap(-1).sink = &b.trace
+	w.Wrap(b.onCall)
 	return nil
 }
 
@@ -486,6 +512,7 @@ func (b *Books) begin(kind string, w int, line string) {
 	b.opW = w
 	b.hint = ""
 	b.trace = nil
+	b.callNo = 0
 	if w >= 0 {
 		b.dirty[w] = true
 	}
@@ -1037,6 +1064,8 @@ func (b *Books) CheckRestore(seed int, label string, keep bool) restoreResult {
 			sig = "C19/restore/excess"
 		} else if gap {
 			sig = "C19/restore/cumulative-counter"
+		} else if strings.HasPrefix(b.hint, "C19/crash/") {
+			sig = b.hint
 		}
 		b.c.MonitorFail("C19", sig, fmt.Sprintf("Restore recovered %d spendable + %d pending but the mint holds %d unspent + %d pending of this seed's outputs (%s)", res.spendable, res.pending, t.unspent, t.pending, label), b.replay())
 		b.c.Hist("restore", sig)
@@ -1057,21 +1086,12 @@ type walletKilled struct{ at string }
 // harness) before the k-th call when armed.
 type WDBProxy struct {
 	wstorage.WalletDB
-	Trace  []string
-	sink   *[]string // shared per-operation trace of the Books
-	killAt int       // -1: never
-	n      int
+	onCall func(label string) // numbering, trace and kill switch of the Books
 }
 
 func (p *WDBProxy) pre(label string) {
-	if p.killAt >= 0 && p.n == p.killAt {
-		p.n++
-		panic(walletKilled{at: fmt.Sprintf("db.%s#%d", label, p.killAt)})
-	}
-	p.n++
-	p.Trace = append(p.Trace, "db."+label)
-	if p.sink != nil {
-		*p.sink = append(*p.sink, "db."+label)
+	if p.onCall != nil {
+		p.onCall("db." + label)
 	}
 }
 
@@ -1149,9 +1169,9 @@ func (p *WDBProxy) GetMeltQuoteById(id string) *wstorage.MeltQuote {
 	return p.WalletDB.GetMeltQuoteById(id)
 }
 
-// Wrap installs a proxy around the wallet's storage (killAt = -1: trace only).
-func (w *bWallet) Wrap(killAt int) *WDBProxy {
-	p := &WDBProxy{killAt: killAt}
+// Wrap installs the proxy around the wallet's storage.
+func (w *bWallet) Wrap(onCall func(string)) *WDBProxy {
+	p := &WDBProxy{onCall: onCall}
 	w.W.VerifWrapDB(func(db wstorage.WalletDB) wstorage.WalletDB {
 		if old, ok := db.(*WDBProxy); ok {
 			db = old.WalletDB
